@@ -73,6 +73,7 @@ class Translator:
         self.pre, self.no_hoist, self.called = [], False, False
         self.post = []
         self.var_types = {}
+        self.helpers = set()
         self.rec_decls = {}
         self.global_arrays = {}
         self.global_fn_deps = set()
@@ -902,6 +903,9 @@ class Translator:
                 return 'V_ABS(%s, %s)' % (rt.replace(' ', '_'), A(0))
             if name in ('min', 'max') and len(args) == 2:
                 return 'V_%s(%s, %s, %s)' % (name.upper(), rt.replace(' ', '_').rstrip('_*'), A(0), A(1))
+            if name in ('isdigit', 'isspace', 'isalpha', 'isalnum', 'toupper', 'tolower') and len(args) == 1:
+                self.cur.stubs.add('<cctype> %s in the "C" locale' % name)
+                return 'V_%s(%s)' % (name.upper(), A(0))
             if name in ('isfinite', 'isnan', 'isinf'):
                 self.cur.stubs.add('v_' + name)
                 return 'v_%s(%s)' % (name, A(0))
@@ -927,6 +931,13 @@ class Translator:
                     return '%sa[ARR_IDX(%s, %d)]' % (self._arrow(A(0)), A(1), kd[2] if kd else 0)
                 if fam in ('std::vector', 'vector', 'std::basic_string', 'std::basic_string_view'):
                     return 'VEC_AT(%s, %s)' % (A(0), A(1))
+            if name == 'operator=' and fam in ('std::basic_string',) and self.tm.tname(args[0]['type']).rstrip(' *').rstrip() == 'struct vec_char':
+                y = args[1]
+                while y.get('kind') in ('ImplicitCastExpr', 'MaterializeTemporaryExpr', 'CXXBindTemporaryExpr') and y.get('inner'):
+                    y = y['inner'][0]
+                if y.get('kind') == 'StringLiteral':
+                    return '%s = %s' % (A(0), self.vec_literal(y))
+                return '%s = %s' % (A(0), A(1))
             if name == 'operator=' and fam in ('std::optional', 'optional'):
                 rt_ = (args[1]['type'].get('desugaredQualType') or args[1]['type']['qualType'])
                 if 'nullopt_t' in rt_:
@@ -976,6 +987,13 @@ class Translator:
                     return 'VEC_PUSH(%s, %s)' % (o, A(0))
                 if name == 'clear':
                     return 'VEC_CLEAR(%s)' % o
+                if name == 'substr' and fam in ('std::basic_string', 'std::basic_string_view'):
+                    real_args = [a for a in args if a.get('kind') != 'CXXDefaultArgExpr']
+                    self.helpers.add('v_substr')
+                    if len(real_args) == 1:
+                        return 'v_substr(%s, %s, (unsigned long)-1)' % (o, self.e(real_args[0]))
+                    if len(real_args) == 2:
+                        return 'v_substr(%s, %s, %s)' % (o, self.e(real_args[0]), self.e(real_args[1]))
             if fam in ('std::optional', 'optional'):
                 if name in ('has_value', 'operator bool'):
                     return '(%shas)' % self._arrow(o)
@@ -1014,6 +1032,20 @@ class Translator:
         if x.get('kind') == 'StringLiteral':
             return self.e(x)
         return self.e(a)
+
+    def vec_literal(self, y):
+        """a string literal as a vec_char value"""
+        import ast as _ast
+        v = y.get('value', '""')
+        try:
+            txt = _ast.literal_eval(v)
+        except Exception:
+            self.abort(y, 'string literal spelling')
+        self.tmpn = getattr(self, 'tmpn', 0) + 1
+        t = 'verif_l%d' % self.tmpn
+        self.tm.vec('char')
+        body = ' '.join('%s.data[%d] = %d;' % (t, i, ord(c)) for i, c in enumerate(txt))
+        return '({ struct vec_char %s; %s.size = %d; %s %s; })' % (t, t, len(txt), body, t)
 
     def stream_put(self, n, args):
         """os << x : one token appended to the ghost sink; the kind of token is decided by the static type of x"""
@@ -2049,6 +2081,20 @@ class Translator:
             lit = v.strip('"')
             nm = lit if re.fullmatch(r'[A-Za-z0-9_]+', lit) else 'X' + lit.encode().hex()
             out.append('#define STR_%s %d' % (nm, j + 1))
+        return '\n'.join(out) + '\n'
+
+    def emit_helpers(self):
+        out = []
+        if 'v_substr' in self.helpers:
+            out.append('''/* std::string(_view)::substr(pos, n): ASSUMED library contract (a macro: CBMC cannot pass unbounded arrays by value) */
+#define v_substr(verif_s, verif_pos0, verif_n0) ({ \\
+    unsigned long verif_pos = (verif_pos0), verif_n = (verif_n0); \\
+    VERIF_OBL(verif_pos <= (verif_s).size, "substr: pos <= size() (std::out_of_range otherwise)"); \\
+    struct vec_char verif_r; unsigned long verif_len = (verif_s).size - verif_pos; \\
+    if (verif_n < verif_len) verif_len = verif_n; \\
+    __CPROVER_assume(verif_r.size == verif_len); \\
+    __CPROVER_assume(__CPROVER_forall { unsigned long verif_k; (verif_k < verif_len) ==> verif_r.data[verif_k] == (verif_s).data[verif_pos + verif_k] }); \\
+    verif_r; })''')
         return '\n'.join(out) + '\n'
 
     def emit_opaque(self):
